@@ -7,6 +7,7 @@ import (
 	"strings"
 
 	"github.com/dpb587/cursorio-go/cursorio"
+	"github.com/dpb587/inspecthtml-go/inspecthtml"
 	"github.com/dpb587/rdfkit-go/encoding"
 	"github.com/dpb587/rdfkit-go/encoding/encodingutil"
 	encodinghtml "github.com/dpb587/rdfkit-go/encoding/html"
@@ -170,7 +171,7 @@ func (w *Decoder) walk(ectx evaluationContext, n *html.Node) {
 					nextSubject = rdf.IRI(sValue)
 
 					if w.captureOffsets {
-						if attrProfile := nodeProfile.TagAttr[attrItemidIdx]; attrProfile != nil && attrProfile.ValueOffsets != nil {
+						if attrProfile := tagAttrMetadata(nodeProfile, attrItemidIdx); attrProfile != nil && attrProfile.ValueOffsets != nil {
 							nextSubjectRange = attrProfile.ValueOffsets
 						}
 					}
@@ -201,7 +202,7 @@ func (w *Decoder) walk(ectx evaluationContext, n *html.Node) {
 						var attrCursorRange *cursorio.TextOffsetRange
 
 						if w.captureOffsets {
-							if attrProfile := nodeProfile.TagAttr[attrItempropIdx]; attrProfile != nil && attrProfile.ValueOffsets != nil {
+							if attrProfile := tagAttrMetadata(nodeProfile, attrItempropIdx); attrProfile != nil && attrProfile.ValueOffsets != nil {
 								attrCursorRange = attrProfile.ValueOffsets
 							}
 						}
@@ -237,7 +238,7 @@ func (w *Decoder) walk(ectx evaluationContext, n *html.Node) {
 					var attrItemtypeKeyCursorRange *cursorio.TextOffsetRange
 
 					if w.captureOffsets {
-						if attrProfile := nodeProfile.TagAttr[attrItemtypeIdx]; attrProfile != nil && attrProfile.ValueOffsets != nil {
+						if attrProfile := tagAttrMetadata(nodeProfile, attrItemtypeIdx); attrProfile != nil && attrProfile.ValueOffsets != nil {
 							attrItemtypeKeyCursorRange = &attrProfile.KeyOffsets
 						}
 					}
@@ -270,7 +271,7 @@ func (w *Decoder) walk(ectx evaluationContext, n *html.Node) {
 						var attrCursorRange *cursorio.TextOffsetRange
 
 						if w.captureOffsets {
-							if attrProfile := nodeProfile.TagAttr[attrItemtypeIdx]; attrProfile != nil && attrProfile.ValueOffsets != nil {
+							if attrProfile := tagAttrMetadata(nodeProfile, attrItemtypeIdx); attrProfile != nil && attrProfile.ValueOffsets != nil {
 								attrCursorRange = attrProfile.ValueOffsets
 							}
 						}
@@ -356,7 +357,7 @@ func (w *Decoder) walk(ectx evaluationContext, n *html.Node) {
 				var attrCursorRange *cursorio.TextOffsetRange
 
 				if w.captureOffsets {
-					if attrProfile := nodeProfile.TagAttr[attrItempropIdx]; attrProfile != nil && attrProfile.ValueOffsets != nil {
+					if attrProfile := tagAttrMetadata(nodeProfile, attrItempropIdx); attrProfile != nil && attrProfile.ValueOffsets != nil {
 						attrCursorRange = attrProfile.ValueOffsets
 					}
 				}
@@ -506,7 +507,7 @@ func (w *Decoder) parseMicrodataItemvalue(ectx evaluationContext, n *html.Node) 
 
 				if w.captureOffsets {
 					if nodeProfile, ok := w.doc.GetNodeMetadata(n); ok {
-						if attrProfile := nodeProfile.TagAttr[attrIdx]; attrProfile != nil && attrProfile.ValueOffsets != nil {
+						if attrProfile := tagAttrMetadata(nodeProfile, attrIdx); attrProfile != nil && attrProfile.ValueOffsets != nil {
 							termCursorRange = attrProfile.ValueOffsets
 						}
 					}
@@ -612,7 +613,7 @@ func (w *Decoder) parseMicrodataItempropAttr(ectx evaluationContext, n *html.Nod
 
 			if w.captureOffsets {
 				if nodeProfile, ok := w.doc.GetNodeMetadata(n); ok {
-					if attrProfile := nodeProfile.TagAttr[attrIdx]; attrProfile != nil && attrProfile.ValueOffsets != nil {
+					if attrProfile := tagAttrMetadata(nodeProfile, attrIdx); attrProfile != nil && attrProfile.ValueOffsets != nil {
 						termCursorRange = attrProfile.ValueOffsets
 					}
 				}
@@ -625,4 +626,15 @@ func (w *Decoder) parseMicrodataItempropAttr(ectx evaluationContext, n *html.Nod
 	// TODO warning missing
 
 	return nil, nil
+}
+
+// tagAttrMetadata returns the offsets recorded for the attribute at index i of the element's start
+// tag. There are none (nil) for an attribute which the tree builder merged into the element from a
+// later start tag (a second <html> or <body>), or when the element itself has no metadata.
+func tagAttrMetadata(nodeProfile *inspecthtml.NodeMetadata, i int) *inspecthtml.NodeAttributeMetadata {
+	if nodeProfile == nil || i < 0 || i >= len(nodeProfile.TagAttr) {
+		return nil
+	}
+
+	return nodeProfile.TagAttr[i]
 }
